@@ -937,6 +937,53 @@ def settled(cur, dx, dp):
     return dist > 4 * F.ulp_of(max(abs(cur), abs(s), abs(dx)))
 
 
+FINDING_TIE = "C08-relative-tie-noise"
+
+
+def _tie_case(cur, inc, dp):
+    """one relative move of `inc` from a position set to `cur`, at `dp` decimals: (emitted X word, error, half unit)"""
+    g, w = F.make_builder(dp, ";", "\n")
+    g.set_axis(x=cur)
+    g.set_distance_mode("relative")
+    n0 = len(w.raw)
+    g.move(x=inc)
+    text = b"".join(w.raw[n0:]).decode("utf-8")
+    word = [t for t in text.split(";", 1)[0].split() if t.startswith("X")][0][1:]
+    return word, abs(Fraction(word) - F.exact(inc)), Fraction(1, 2) / 10 ** dp
+
+
+def unsettled_tie_cases(R, n):
+    """oracle-only: the inputs `settled()` keeps out of the relative-mode histories - an increment at a decimal rounding tie from an
+    inexact position.  The builder writes (pos + inc) - pos as computed in binary64; the listed finding is an excess over the
+    half unit of at most 4 ulp of the operands, anything larger is a violation."""
+    for _ in range(n):
+        r = R.rng
+        dp = r.choice([0, 1, 1, 2, 2, 3, 4, 5])
+        cur = r.randint(-200000, 200000) / 10 ** r.randint(1, 4)
+        inc = float(Fraction(2 * r.randint(-3000, 3000) + 1, 2 * 10 ** dp))
+        if not math.isfinite(cur + inc) or inc == 0:
+            continue
+        R.evaluations += 1
+        R.count("relative:decimal-tie-from-an-inexact-position")
+        word, err, half = _tie_case(cur, inc, dp)
+        if err <= half:
+            continue
+        ulp = F.ulp_of(max(abs(cur), abs(cur + inc), abs(inc)))
+        R.fail({"position": cur, "increment": repr(inc), "dp": dp}, f"G91 from X{cur}: move(x={inc!r}) wrote X{word}, off by {float(err):.17g} > 0.5e-{dp} "
+               f"(the builder formats (pos + inc) - pos)", tag="relative-tie-noise", excess_ulps=float((err - half) / ulp), tie=True)
+
+
+def finding_tie_predicate(fl) -> bool:
+    return fl.get("tag") == "relative-tie-noise" and fl.get("tie") is True and fl.get("excess_ulps", 99) <= 4
+
+
+def witness_tie():
+    word, err, half = _tie_case(13.1, 12.05, 1)
+    if err > half:
+        return True, f"dp=1, set_axis(x=13.1), G91, move(x=12.05) wrote X{word}: {float(err):.17g} from the requested 12.05"
+    return False, "move(x=12.05) in G91 from X13.1 at one decimal is written within half a unit"
+
+
 def as_float(kw):
     """coordinates of move / rapid go through the (identity) transform: plain float64"""
     return {k: (float(x) if k.upper() in "XYZ" and F._is_number(x) and math.isfinite(float(x)) else x)
@@ -1232,6 +1279,7 @@ def run(R: core.Run):
     run_groups(R, R.n(220, 6000), "lines:several-builders-alive")
     # (d) consecutive moves in relative distance mode, increments with digits beyond the configured places
     run_relative(R, R.n(150, 5000), "lines:relative-mode-histories", corpus=True)
+    unsettled_tie_cases(R, R.n(150, 3000))
 
     if R.broken:
         # failing-input search: fresh batches judged by the oracle alone
@@ -1245,7 +1293,7 @@ def run(R: core.Run):
                     oracle_only=True, alive=order)
         run_groups(R, R.n(400, 4000), "search:lines:several-builders-alive", oracle_only=True)
         run_relative(R, R.n(300, 4000), "search:lines:relative-mode-histories", oracle_only=True)
-    return {}, {}
+    return {FINDING_TIE: finding_tie_predicate}, {FINDING_TIE: witness_tie}
 
 
 def replay(data):
